@@ -245,7 +245,7 @@ PROPS = {
     ),
     "C13": dict(
         specs=["packer", "avp", "avp_types", "avp_grouped", "base", "node_model", "peer", "helpers", "c20", "family", "node", "c13"],
-        ground=[], replay=replay.generic,
+        ground=[ground.c13_event_ownership], replay=replay.generic,
         trusted_base=["socket objects: close()/fileno()/setsockopt() models"],
         assumptions=COMMON_ASSUME + [
             "handlers are serialized (S5): cross-thread mutation of the tables is not decided",
